@@ -235,7 +235,8 @@ def predict(model: Model, op: dict[str, Any]) -> dict[str, Any]:
 
 
 def run_serial_case(case: dict[str, Any], oracle: Oracle, *, snapshot_every: bool = True, sessions_every: bool = True,
-                    focus: Any = None, min_focus: int = 1, fail_profile: bool = False, check_vars: bool = False) -> dict[str, Any]:
+                    focus: Any = None, min_focus: int = 1, fail_profile: bool = False, check_vars: bool = False,
+                    tolerate: tuple[str, ...] = ()) -> dict[str, Any]:
     """Execute case['ops'] in list order; after every op run the oracles. Returns the result record."""
     sim = core.begin()
     cfg = case.get("config", {})
@@ -246,15 +247,18 @@ def run_serial_case(case: dict[str, Any], oracle: Oracle, *, snapshot_every: boo
     kinds: list[str] = []
     n_done = 0
     focus_hits = 0
+    extra_violations: list[dict[str, Any]] = []
     try:
         for op in case["ops"]:
             if op["k"] not in ("connect", "restart") and op["s"] not in world.conns:
                 continue  # its connect was removed by the minimiser: the op is void
             sim.set_session(op["s"])
             inv = sim.tick()
+            pred = predict(model, op)  # independent of the world: the model only sees the op
+            is_ddl = op["k"] == "exec" and str(op.get("sql", "")).lstrip().upper().startswith(("CREATE", "ALTER", "COMMENT", "DROP"))
+            meta_before = world_meta(world) if fail_profile and not pred["ok"] and is_ddl else None
             out = world.apply(op)
             sim.note(inv, op["s"], op["k"], (op.get("st") or {}).get("t"), out.get("ok"), out.get("errno"), fp(out.get("rows")) if out.get("rows") is not None else None)
-            pred = predict(model, op)
             oracle.current_op = op
             oracle.current_pred_ok = bool(pred["ok"])
             n_done += 1
@@ -281,10 +285,23 @@ def run_serial_case(case: dict[str, Any], oracle: Oracle, *, snapshot_every: boo
                 oracle.check_snapshot(op, model, world.observe(with_sessions=False))
             if oracle.violation is None and sessions_every:
                 oracle.check_sessions(op, model, world)
+            if oracle.violation is None and meta_before is not None and not out.get("ok"):
+                meta_after = world_meta(world)
+                if meta_after != meta_before:
+                    diff = {k: {"before": meta_before.get(k), "after": meta_after.get(k)} for k in sorted(set(meta_before) | set(meta_after)) if meta_before.get(k) != meta_after.get(k)}
+                    oracle.flag("effect", f"metadata/{t}", {"op": op_brief(op), "changed": dict(list(diff.items())[:4])})
             if oracle.violation is None and (check_vars or (fail_profile and (not pred["ok"] or t in ("set_var", "unset_var") or op is case["ops"][-1]))):
                 oracle.check_variables(op, model, world)
             if oracle.violation is not None:
                 oracle.violation["detail"]["op_index"] = n_done - 1
+                if tolerate and oracle.violation["signature"].startswith(tolerate):
+                    # a listed hazard fired: model and system have diverged, but what comes AFTER it is still worth
+                    # looking at - continue with model-free self-consistency checks (DESIGN.md section 4, "after-known")
+                    extra = after_known(case["ops"][case["ops"].index(op) + 1:], world, sim, oracle.default_prop)
+                    probes["after_known_ops"] = probes.get("after_known_ops", 0) + extra["ops"]
+                    n_done += extra["ops"]
+                    if extra["violation"] is not None:
+                        extra_violations.append(extra["violation"])
                 break
         sim.set_session("main")
         final = fp(model.snapshot())
@@ -301,7 +318,7 @@ def run_serial_case(case: dict[str, Any], oracle: Oracle, *, snapshot_every: boo
         return {
             "faults": {k: v for k, v in faults.items() if v},
             "cover": cover,
-            "violations": [oracle.violation] if oracle.violation else [],
+            "violations": ([oracle.violation] if oracle.violation else []) + extra_violations,
             "digest": sim.digest(),
             "steps": sim.engine_events,
             "ops": n_done,
@@ -315,6 +332,77 @@ def run_serial_case(case: dict[str, Any], oracle: Oracle, *, snapshot_every: boo
     finally:
         world.close()
         core.end()
+
+
+def _api_ctx(world: World, sid: str) -> list[Any]:
+    conn = world.conns[sid]
+    with world.sim.quiet():
+        try:
+            cur = conn.cursor()
+            cur.execute("SELECT CURRENT_DATABASE(), CURRENT_SCHEMA()")
+            g = list(cur.fetchall()[0])
+        except BaseException as e:  # noqa: BLE001
+            g = ["!" + type(e).__name__, None]
+    return [conn.database, conn.schema, g[0], g[1]]
+
+
+def after_known(ops: list[dict[str, Any]], world: World, sim: core.Sim, prop: str) -> dict[str, Any]:
+    """Model-free continuation after a listed hazard fired. Only statements about the system's own consistency:
+    (1) after a successful USE the attributes and the CURRENT_* functions agree; (2) a failing statement changes neither
+    the snapshot nor its session's context; (3) rows inserted through a not fully qualified name land in the table the
+    session's own CURRENT_DATABASE()/CURRENT_SCHEMA() named before the statement."""
+    n = 0
+    for op in ops:
+        if op["k"] != "exec" or op["s"] not in world.conns or world.conns[op["s"]].is_closed():
+            if op["k"] == "connect":
+                world.apply(op)
+            continue
+        st = op.get("st") or {}
+        t = st.get("t")
+        sid = op["s"]
+        before_ctx = _api_ctx(world, sid)
+        before = world.observe(with_sessions=False)
+        sim.set_session(sid)
+        out = world.apply(op)
+        n += 1
+        after_ctx = _api_ctx(world, sid)
+        after = world.observe(with_sessions=False)
+        brief = {"op": op_brief(op), "context_before": before_ctx, "context_after": after_ctx}
+        if not out.get("ok"):
+            if after != before or after_ctx != before_ctx:
+                return {"ops": n, "violation": {"property": prop, "signature": f"after-known/failed-statement-changed/{t}", "clause": "a failing statement changes nothing", "detail": brief}}
+            continue
+        if t == "use_schema" and (after_ctx[1] != after_ctx[3] or after_ctx[0] != after_ctx[2]):
+            return {"ops": n, "violation": {"property": prop, "signature": "after-known/self-consistency/use_schema", "clause": "after a successful USE SCHEMA conn.database/schema equal CURRENT_DATABASE()/CURRENT_SCHEMA()", "detail": brief}}
+        if t == "use_db" and after_ctx[0] != after_ctx[2]:
+            return {"ops": n, "violation": {"property": prop, "signature": "after-known/self-consistency/use_db", "clause": "after a successful USE DATABASE conn.database equals CURRENT_DATABASE()", "detail": brief}}
+        if t == "insert" and st.get("ref") and (st["ref"][0] is None or st["ref"][1] is None) and before_ctx[2] and before_ctx[3]:
+            want = f"{(st['ref'][0] or before_ctx[2]).upper()}.{(st['ref'][1] or before_ctx[3]).upper()}.{st['ref'][2].upper()}"
+            changed = sorted(k for k in set(before["rows"]) | set(after["rows"]) if before["rows"].get(k) != after["rows"].get(k))
+            if changed != [want]:
+                return {"ops": n, "violation": {"property": prop, "signature": "after-known/landing/insert", "clause": "a not fully qualified name denotes the object built from the session's own context",
+                                                "detail": {**brief, "expected_table": want, "tables_changed": changed}}}
+    return {"ops": n, "violation": None}
+
+
+def world_meta(world: World) -> dict[str, Any]:
+    """Snowflake-side metadata as the API reports it (comments, declared VARCHAR lengths), per database, read by
+    quiet observer connections whose current database is the one looked at."""
+    out: dict[str, Any] = {}
+    snap = world.observe(with_rows=False, with_sessions=False)
+    with world.sim.quiet():
+        for db in snap["dbs"]:
+            try:
+                cur = world.fs.connect(database=db).cursor()
+                for s, t, c in cur.execute("SELECT table_schema, table_name, comment FROM information_schema.tables WHERE table_schema NOT IN ('information_schema', 'main')").fetchall():
+                    if not str(t).startswith("_fs_"):
+                        out[f"{db}.{s}.{t}#comment"] = c
+                for s, t, c, ln in cur.execute("SELECT table_schema, table_name, column_name, character_maximum_length FROM information_schema.columns WHERE table_schema NOT IN ('information_schema', 'main')").fetchall():
+                    if not str(t).startswith("_fs_"):
+                        out[f"{db}.{s}.{t}.{c}#length"] = ln
+            except BaseException as e:  # noqa: BLE001
+                out[f"{db}#error"] = type(e).__name__
+    return out
 
 
 def dumps(x: Any) -> str:
